@@ -4,7 +4,7 @@ mod points_to_mesh;
 mod rotations;
 
 use crate::geom3::{Iso3, Point3, Vector3};
-use parry3d_f64::na::{Translation3, UnitQuaternion, Vector6};
+use parry3d_f64::na::{Rotation3, Translation3, UnitQuaternion, Vector6};
 
 type T3Storage = Vector6<f64>;
 
@@ -27,8 +27,20 @@ pub fn iso3_from_param(p: &T3Storage) -> Iso3 {
 
 pub fn param_from_iso3(t: &Iso3) -> T3Storage {
     let v = t.translation.vector;
-    let e = t.rotation.euler_angles();
-    T3Storage::new(v.x, v.y, v.z, e.0, e.1, e.2)
+
+    // The angles are those of `UnitQuaternion::from_euler_angles`, R = Rz(yaw) Ry(pitch) Rx(roll).
+    // Taking the pitch from an arc sine loses half of the digits when it is close to a quarter
+    // turn, and roll and yaw found separately do not compensate each other there, so the round
+    // trip through the parameters was off by up to 1e-8 for poses near gimbal lock. Here roll and
+    // pitch are taken from the third row with arc tangents, which reproduce that row to full
+    // precision, and the yaw is whatever rotation about z remains.
+    let m = t.rotation.to_rotation_matrix();
+    let roll = m[(2, 1)].atan2(m[(2, 2)]);
+    let pitch = (-m[(2, 0)]).atan2(m[(2, 1)].hypot(m[(2, 2)]));
+    let rest = m * Rotation3::from_euler_angles(roll, pitch, 0.0).inverse();
+    let yaw = rest[(1, 0)].atan2(rest[(0, 0)]);
+
+    T3Storage::new(v.x, v.y, v.z, roll, pitch, yaw)
 }
 
 pub fn distance_weight(d: f64, threshold: f64) -> f64 {
